@@ -84,6 +84,7 @@ func C14(ctx *core.Ctx, r *core.Report) {
 	c14ModuleXorError(ctx, r)
 	c14GuardBacking(ctx, r)
 	c14Recursion(ctx, r, roots)
+	lexerCycleAdvances(ctx, r, "parser", e.reach, c14LexTriage, 8)
 	// a failed builder call leaves nil on the parser's stack unless the action stops the parse
 	if g := loadGrammar(ctx, r, "parser/parser.y"); g != nil {
 		c06BuilderErrorChecked(ctx, r, g)
@@ -340,3 +341,7 @@ var c14Cycles = map[string]string{
 }
 
 var c14ParallelTriage = map[string]string{}
+
+var c14LexTriage = map[string]string{
+	"parser.lexer.nextToken/loop1": "the driver loop: each turn runs one state function, which either emits a token (the next turn returns it), returns the error state (which emits the error token) or returns nil (the next turn returns EOF); the state functions' own loops are the obligations above",
+}
